@@ -227,7 +227,7 @@ CHECKS['C11'] = dict(
          _mode_jobs('MODE_DYNDEP_BAD', [7, 15], suffix='_bad', reach=('truncated', 'rejected', 'accepted'), bounds='dyndep text truncated at every byte or one of 7 (8 with two dyndep files) ill-formed variants; dyndep file produced during the build or already present; -j in {1,2}') +
          _hist_jobs('CHECK_C11', 2, 2, [15]))
 
-SCENARIOS += ['cycle_explicit', 'cycle_order_only_implicit', 'cycle_multi_output', 'validation_on_requester', 'cycle_by_depfile', 'cycle_by_deps_log', 'self_cycle', 'cycle_by_dyndep_running']
+SCENARIOS += ['cycle_explicit', 'cycle_order_only_implicit', 'cycle_multi_output', 'validation_on_requester', 'cycle_by_depfile', 'cycle_by_deps_log', 'self_cycle', 'cycle_by_dyndep_running', 'independent_depfile_edges']
 CHECKS['C17'] = dict(
     title='dependency cycles are always diagnosed, and only real ones',
     level_text='Symbolic invocations over the whole real pipeline on graphs with cycles of length 1-3 through explicit, implicit and order-only inputs and through multi-output statements, inside and outside the requested closure, closed by the manifest, by a depfile, by the deps log or (C11 job dyndep_bad) by a dyndep file mid-build, plus acyclic graphs in which validations depend on their requester or on each other. A depth-first search over the harness reference graph decides whether the needed part is cyclic; the solver is asked for a target subset / -j / schedule for which ninja does not fail with a "dependency cycle" error spelling out a closed chain of real input relations, runs a command of the cycle, rejects an acyclic graph, or ends with "stuck". Unbounded recursion and hangs are caught by the engine call-depth and step budgets.',
@@ -253,6 +253,6 @@ CHECKS['C19'] = dict(
     level_note='Trusted base as C01. The read-only tools of ninja.cc (-t commands, inputs, query, targets, rules, graph, compdb, deps, missingdeps) are not driven: only their JSON string encoder and the dry-run path are encoded; directory creation by MakeDirs under -n is not part of the snapshot (the property lists sources, outputs, depfiles and logs).',
     assumptions=_PIPE_ASSUME + ['the -t tools themselves are outside the encoding; only EncodeJSONString is'],
     jobs=_mode_jobs('MODE_DRYRUN', [0, 2, 5], reach=('compared', 'nothing-to-do'), bounds='fully built tree + symbolic edits/deletions, symbolic target subset, -j in {1,2}; dry run then real run') +
-         _mode_jobs('MODE_DRYRUN', [2, 1], extra=['LEFTOVERS'], suffix='_leftovers', reach=('compared', 'dry-run-aborted'), bounds='the same with a stale depfile / kept response file possibly present and directory creation possibly failing') +
+         _mode_jobs('MODE_DRYRUN', [2, 1, 24], extra=['LEFTOVERS'], suffix='_leftovers', reach=('compared', 'dry-run-aborted'), bounds='the same with a stale depfile / kept response file possibly present and directory creation possibly failing') +
          [dict(name='json', harness='c19_json.cc', units=['json'], stubs=False, reach=['escaped', 'verbatim'],
                quick=dict(defines=['VERIF_N=3'], bounds='every NUL-free byte string of length 0..3'), thorough=dict(defines=['VERIF_N=5'], bounds='every NUL-free byte string of length 0..5', limits=dict(time=3000, max_paths=3000000)))])
